@@ -176,6 +176,9 @@ def run_property(mod, tier='quick', seed=0, jobs=None, only_shards=None):
     _MOD, _TIER = mod, tier
     t0 = time.time()
     jobs = jobs or int(os.environ.get('VERIF_JOBS', '0')) or min(16, os.cpu_count() or 4)
+    if getattr(mod, 'NEEDS_EXT', False):
+        from mc import seams
+        seams.install_ext()
     if hasattr(mod, 'prepare'):
         mod.prepare(tier)
     shards = list(mod.shards(tier))
@@ -300,6 +303,9 @@ def run_replay(mod, path):
     with open(path) as f:
         doc = json.load(f)
     case = doc['case'] if 'case' in doc else doc
+    if getattr(mod, 'NEEDS_EXT', False):
+        from mc import seams
+        seams.install_ext()
     vs = mod.replay(case)
     register = load_register()
     rc = 0
